@@ -28,9 +28,9 @@ func init() {
 
 var htmlTags = []string{"div", "p", "span", "b", "i", "a", "em", "table", "tr", "td", "th", "tbody", "thead", "caption", "colgroup", "col", "ul", "ol", "li", "dl", "dt", "dd",
 	"select", "option", "optgroup", "template", "script", "style", "textarea", "title", "br", "img", "hr", "input", "meta", "link", "svg", "math", "g", "circle", "foreignObject", "mi", "mo", "annotation-xml",
-	"h1", "h2", "form", "button", "nobr", "font", "body", "head", "html", "frameset", "noscript", "pre", "plaintext-not", "x-custom", "svg:rect", "main", "section", "center", "applet", "marquee", "object"}
+	"h1", "h2", "form", "button", "nobr", "font", "body", "head", "html", "frameset", "noscript", "pre", "plaintext-not", "x-custom", "svg:rect", "x:", "o:", "o:p", "main", "section", "center", "applet", "marquee", "object"}
 
-var htmlAttrs = []string{"id", "class", "href", "xmlns", "xmlns:x", "xmlns:xlink", "xlink:href", "x:a", "y:a", "id", "DATA-X", "data-é", "style", "viewBox", "definitionurl", "a:b", "xmlnsfoo", "xmlns-x", "xmlns_", "xmlnsx:y"}
+var htmlAttrs = []string{"id", "class", "href", "xmlns", "xmlns:x", "xmlns:xlink", "xlink:href", "x:a", "y:a", "id", "DATA-X", "data-é", "style", "viewBox", "definitionurl", "a:b", "xmlnsfoo", "xmlns-x", "xmlns_", "xmlnsx:y", "a:", "xml:lang"}
 
 func genSoup(g *rng.R, sb *strings.Builder, depth, maxDepth int, budget *int) {
 	n := g.Range(0, 4)
